@@ -375,13 +375,14 @@ fn rec(
     cfg: &RunCfg,
 ) {
     if !ops.is_empty() {
-        // partition by the first two operations
-        let key = hash_of(&(su.name, cap, fl, &ops[..ops.len().min(2)]));
+        // partition by the first three operations
+        const L: usize = 3;
+        let key = hash_of(&(su.name, cap, fl, &ops[..ops.len().min(L)]));
         let mine = (key as usize) % shard.1 == shard.0;
-        if ops.len() >= 2 && !mine {
+        if ops.len() >= L && !mine {
             return;
         }
-        if mine || ops.len() < 2 {
+        if mine || ops.len() < L {
             let run_it = mine;
             let mut full = Vec::new();
             for o in ops.iter() {
@@ -430,7 +431,19 @@ fn rec(
                 st.model_transitions += r.model_transitions;
                 st.model_outcomes += r.model_outcomes;
                 if let Some(s) = &r.sample {
-                    st.distinct.insert(hash_of(&format!("{:?}", crate::hist::outcome_of(s))));
+                    // every sequence is distinct by construction; it is
+                    // non-trivial if some call moved or refused a value,
+                    // failed, panicked or changed the handle counts
+                    use crate::hist::Res;
+                    let nontrivial = s.calls.iter().any(|c| {
+                        matches!(c.res, Res::Val(_) | Res::Err(_) | Res::Panicked | Res::End)
+                            || matches!(&c.res, Res::Drained(n, _) if *n > 0)
+                            || (c.tag.is_some() && c.res == Res::Ok)
+                            || matches!(c.op, Op::NewHandle(..) | Op::DropHandle(_) | Op::Close(_))
+                    });
+                    if nontrivial {
+                        st.distinct.insert(hash_of(&p.name));
+                    }
                 }
                 if r.violation.is_some() || r.foreign.is_some() || !r.completed {
                     let mut r = r;
